@@ -185,6 +185,37 @@ func c01Step(w *World, h *HistRun, i int) (fs []Finding) {
 	return
 }
 
+// sessionsShareReservation: before step i, two different sessions of the account's subscriber held a grant > 0 on the
+// account's rating group at the same time.
+func sessionsShareReservation(h *HistRun, i int, k string) bool {
+	outstanding := map[string]int32{} // session reference -> last grant on the rating group
+	for j := 0; j < i && j < len(h.Steps); j++ {
+		sj := h.Steps[j]
+		if sj.Resp.Code/100 != 2 || sj.Ref == "" {
+			continue
+		}
+		if sj.Op.K == "release" {
+			delete(outstanding, sj.Ref)
+			continue
+		}
+		for _, u := range sj.Units {
+			if balKey(sj.Supi, u.RG) == k && u.Granted >= 0 {
+				outstanding[sj.Ref] = u.Granted
+			}
+		}
+		n := 0
+		for _, g := range outstanding {
+			if g > 0 {
+				n++
+			}
+		}
+		if n >= 2 {
+			return true
+		}
+	}
+	return false
+}
+
 // c06Step: no negative balance; grant limited to what the remaining money buys, with final-unit indication.
 func c06Step(w *World, h *HistRun, i int) (fs []Finding) {
 	st := h.Steps[i]
@@ -195,6 +226,11 @@ func c06Step(w *World, h *HistRun, i int) (fs []Finding) {
 		if b1, ok := balOf(st.Post, k); ok && b1 < 0 {
 			b0, _ := balOf(st.Pre, k)
 			rule := "negative-balance"
+			if sessionsShareReservation(h, i, k) {
+				// positively recognised known defect (see known_findings.json): the reservation is kept per subscriber and
+				// rating group, so two sessions of one subscriber are granted against the same money
+				rule = "negative-balance/sessions-share-reservation"
+			}
 			fs = append(fs, Finding{rule, fmt.Sprintf("step %d %s: account %s balance %d -> %d (reservation %d -> %d)", i, st.Op, k, b0, b1, resOf(st.Pre, k), resOf(st.Post, k))})
 		}
 	}
@@ -426,6 +462,10 @@ func acctScenarios(prop, tier string) []acctScenario {
 			rgs: one, usedSyms: []string{"zero", "half", "all"}, reqs: []int32{50, 100}})
 	}
 	scs = append(scs, acctScenario{name: "2sess-b300-u2", accounts: []Account{{supiA, 1, "300", "2"}}, depth: 4,
+		rgs: one, usedSyms: []string{"zero", "all"}, reqs: []int32{100}, twoSess: true})
+	// two sessions of one subscriber that both hold a grant on the same rating group (starts where the shorter scenario's depth ends)
+	scs = append(scs, acctScenario{name: "2sess-b300-u2-both-granted", accounts: []Account{{supiA, 1, "300", "2"}}, depth: 2,
+		prefix: []Op{mkCreate(0, "smf1"), mkCreate(0, "smf2"), usageOp("update", 0, 1, 100, 0, 301), usageOp("update", 1, 1, 100, 0, 401)},
 		rgs: one, usedSyms: []string{"zero", "all"}, reqs: []int32{100}, twoSess: true})
 	scs = append(scs, acctScenario{name: "2rg-b250", accounts: []Account{{supiA, 1, "250", "2"}, {supiA, 2, "120", "1"}}, prefix: []Op{mkCreate(0, "smf1")}, depth: 3,
 		rgs: [][]int32{{1}, {2}, {1, 2}}, usedSyms: []string{"zero", "all"}, reqs: []int32{100}})
